@@ -1,6 +1,7 @@
 package vc
 
 import (
+	"strconv"
 	"fmt"
 	"go/ast"
 	"go/constant"
@@ -571,6 +572,22 @@ func (c *evalCtx) local(name string) (Val, bool) {
 			}
 			if phi.Comment == name {
 				return get(phi), true
+			}
+		}
+	}
+	// rangeindexK: the hidden index of the range loop with ordinal K (for invariants of a nested loop that must name
+	// the index of an enclosing "for _, x := range" loop)
+	if strings.HasPrefix(name, "rangeindex") && len(name) > len("rangeindex") {
+		if k, err := strconv.Atoi(name[len("rangeindex"):]); err == nil {
+			for hb, li := range f.loops {
+				if li.ordinal != k {
+					continue
+				}
+				for _, in := range hb.Instrs {
+					if phi, ok := in.(*ssa.Phi); ok && phi.Comment == "rangeindex" {
+						return get(phi), true
+					}
+				}
 			}
 		}
 	}
@@ -1535,12 +1552,31 @@ func termHasMemo(t, v *smt.Term, memo map[int]bool) bool {
 func (c *evalCtx) foldExpr(n *ECall) EV {
 	e := c.e
 	cx := e.C
-	if len(n.Args) != 3 {
-		c.fail("fold(f, s, t)")
+	if len(n.Args) < 3 {
+		c.fail("fold(f, s, t, extra...)")
 	}
+	// fold(f, s, t, x1, ..., xk) = sum over i < t of f(s[i], x1, ..., xk): the extra arguments are parameters of the
+	// per-element function (a version, a flag) and part of the fold's identity
+	var extraTerms []*smt.Term
+	extraTag := ""
+	for k, xa := range n.Args[3:] {
+		xv := c.eval(xa)
+		if xv.Lit != nil || xv.V.Typ == nil {
+			c.fail("fold: extra argument %d must be a typed value", k)
+		}
+		extraTerms = append(extraTerms, xv.V.Terms...)
+		extraTag += "." + sortTag(smt.Sort(typeStr(xv.V.Typ)))
+	}
+	// the per-element function: a name of the current package / a spec function, or pkg.Name (the fold is identified by
+	// the bare name, so a fold stated in another package's contract is the same fold)
+	var fexpr Expr = n.Args[0]
 	fid, ok := n.Args[0].(*EIdent)
 	if !ok {
-		c.fail("fold: first argument must name a function")
+		sel, isSel := n.Args[0].(*ESel)
+		if !isSel {
+			c.fail("fold: first argument must name a function")
+		}
+		fid = &EIdent{Name: sel.Field}
 	}
 	sv := c.eval(n.Args[1]).V
 	sl, ok := types.Unalias(sv.Typ).Underlying().(*types.Slice)
@@ -1554,9 +1590,10 @@ func (c *evalCtx) foldExpr(n *ECall) EV {
 		arr := e.heapArr(c.st, elemName(el, k), smt.Array(smt.Int, smt.Array(smt.BV(64), so)))
 		inner = append(inner, cx.Select(arr, sv.Terms[0]))
 	}
-	name := "fold." + fid.Name + "." + sortTag(smt.Sort(typeStr(el)))
+	name := "fold." + fid.Name + "." + sortTag(smt.Sort(typeStr(el))) + extraTag
 	app := func(idx *smt.Term) *smt.Term {
 		args := append(append([]*smt.Term{}, inner...), sv.Terms[1], idx)
+		args = append(args, extraTerms...)
 		return cx.App(name, smt.BV(64), args...)
 	}
 	res := app(t)
@@ -1575,7 +1612,7 @@ func (c *evalCtx) foldExpr(n *ECall) EV {
 			sub.bound[k] = v
 		}
 		sub.bound["fold$elem"] = EV{V: elem}
-		fv := cx.Extend(sub.toMath(sub.eval(&ECall{Fn: &EIdent{Name: fid.Name}, Args: []Expr{&EIdent{Name: "fold$elem"}}})), 64, true)
+		fv := cx.Extend(sub.toMath(sub.eval(&ECall{Fn: fexpr, Args: append([]Expr{&EIdent{Name: "fold$elem"}}, n.Args[3:]...)})), 64, true)
 		zero := cx.BVLit64(0, 64)
 		e.assume(c.st, cx.Eq(app(zero), zero))
 		e.assume(c.st, cx.Implies(cx.And(cx.Op("bvslt", smt.Bool, zero, t), cx.Op("bvsle", smt.Bool, t, sv.Terms[2])),
